@@ -150,6 +150,9 @@ def process(lines, driver_exe, workdir):
         if not ok:
             out.append("R HARNESS-BUILD-FAILED " + h.error.replace("\n", " ")[-400:])
             continue
+        if c["idx"] in h.bad:
+            out.append("R T %s | V UNCOMPILABLE-EMITTED-SOURCE" % " ;; ".join(c["texts"]))
+            continue
         if len(c["texts"]) == 1:
             texts = c["texts"][0]
         else:
